@@ -57,7 +57,7 @@ class ccube:
             interacting_shape = tuple(
                 int(max([coords[0] for coords in d] + [d.common])) + 1 for d in dims
             )
-        self.interacting_shape = interacting_shape
+        self.interacting_shape = tuple(int(extent) for extent in interacting_shape)
         self.shape = self.scaffold_shape + self.interacting_shape
 
         # The cube is extended by 1 along each interacting axis while working.
